@@ -4,6 +4,7 @@ package health
 
 import (
 	"encoding/json"
+	"runtime"
 	"sync"
 	"sync/atomic"
 	"testing"
@@ -62,25 +63,69 @@ func TestVerif_HealthBreaker(t *testing.T) {
 				f, o := verifBreakerState(cb, url)
 				tr.Emit("Ask", "res", res, "f", f, "o", o)
 			case "Race":
-				// n goroutines ask at once (released together)
+				// n goroutines ask at once, released together by a spin barrier. The burst is repeated from the
+				// SAME breaker state (the probe clock is put back before every round) because the windows a
+				// non-atomic admission leaves are a few nanoseconds wide; every round is an experiment of its own
+				// and the trace records the smallest and the largest number admitted in one round.
 				n := zzverif.Int(args[0])
-				var admits atomic.Int64
-				var wg sync.WaitGroup
-				start := make(chan struct{})
-				for k := 0; k < n; k++ {
-					wg.Add(1)
-					go func() {
-						defer wg.Done()
-						<-start
-						if !cb.IsOpen(url) {
-							admits.Add(1)
-						}
-					}()
+				st, have := cb.endpoints.Load(url)
+				// ages, not instants, are put back: real time keeps moving while the rounds run and must not carry
+				// the breaker across one of its thresholds
+				var ageA, ageF int64
+				if have {
+					now := time.Now().UnixNano()
+					if v := atomic.LoadInt64(&st.lastAttempt); v != 0 {
+						ageA = now - v
+					}
+					if v := atomic.LoadInt64(&st.lastFailure); v != 0 {
+						ageF = now - v
+					}
 				}
-				close(start)
-				wg.Wait()
+				minAd, maxAd := int64(n+1), int64(-1)
+				for round := 0; round < 150; round++ {
+					if have && round > 0 {
+						now := time.Now().UnixNano()
+						if ageA != 0 {
+							atomic.StoreInt64(&st.lastAttempt, now-ageA)
+						} else {
+							atomic.StoreInt64(&st.lastAttempt, 0)
+						}
+						if ageF != 0 {
+							atomic.StoreInt64(&st.lastFailure, now-ageF)
+						}
+					}
+					var admits, ready atomic.Int64
+					var goFlag atomic.Bool
+					var wg sync.WaitGroup
+					for k := 0; k < n; k++ {
+						wg.Add(1)
+						go func() {
+							defer wg.Done()
+							ready.Add(1)
+							for !goFlag.Load() {
+							}
+							if !cb.IsOpen(url) {
+								admits.Add(1)
+							}
+						}()
+					}
+					for ready.Load() < int64(n) {
+						runtime.Gosched()
+					}
+					goFlag.Store(true)
+					wg.Wait()
+					if a := admits.Load(); a < minAd {
+						minAd = a
+					}
+					if a := admits.Load(); a > maxAd {
+						maxAd = a
+					}
+					if !have { // no state yet: the breaker is closed and stays so; one round says it all
+						break
+					}
+				}
 				f, o := verifBreakerState(cb, url)
-				tr.Emit("Race", "n", n, "admits", admits.Load(), "f", f, "o", o)
+				tr.Emit("Race", "n", n, "admits", maxAd, "admitsMin", minAd, "f", f, "o", o)
 			case "Fail":
 				cb.RecordFailure(url)
 				f, o := verifBreakerState(cb, url)
